@@ -1,5 +1,7 @@
 package main
 
+import "strings"
+
 // Finite instantiation of quantified assumptions.
 // Replacing an assumption (forall x. P x) by the conjunction of P t over finitely many ground terms t
 // weakens the hypotheses, so "unsat" for the instantiated query is a valid proof of the original
@@ -134,4 +136,35 @@ func instForall(q *Term, cands map[Sort][]*Term) []*Term {
 	}
 	rec(0, map[string]*Term{})
 	return res
+}
+
+// closureAxioms: the entry heap is closed under allocation — an object allocated at entry stores only
+// nil or references allocated at entry in its reference-typed fields (added per entry family used).
+func closureAxioms(ts []*Term) []*Term {
+	var out []*Term
+	seen := map[*Term]bool{}
+	done := map[string]bool{}
+	alloc0 := Const("G$alloc@0", ArrSort(SInt, SBool))
+	var walk func(t *Term)
+	walk = func(t *Term) {
+		if seen[t] {
+			return
+		}
+		seen[t] = true
+		for _, a := range t.Args {
+			walk(a)
+		}
+		if t.Kind == kConst && strings.HasSuffix(strings.Trim(t.Op, "|"), "@0") && !done[t.Op] {
+			fam := strings.TrimSuffix(strings.Trim(t.Op, "|"), "@0")
+			if heapRefFam[fam] && t.Sort == ArrSort(SInt, SInt) {
+				done[t.Op] = true
+				r := BoundVar("r", SInt)
+				out = append(out, Forall([]*Term{r}, Implies(Select(alloc0, r), Or(Eq(Select(t, r), IntLit(0)), And(Gt(Select(t, r), IntLit(0)), Select(alloc0, Select(t, r)))))))
+			}
+		}
+	}
+	for _, t := range ts {
+		walk(t)
+	}
+	return out
 }
